@@ -52,6 +52,7 @@ class Contract:
     self.returns = g("returns", "none")
     self.self_fields = dict(g("self_fields", {}))
     self.self_cls = g("self_cls", None)
+    self.self_init = g("self_init", None)   # constructor arguments: self is built by executing __init__ (concretely)
     self.requires = [Clause(c) for c in g("requires", [])]
     self.ensures = [Clause(c) for c in g("ensures", [])]
     # raises: {ExcName: clause-or-None}.  With a clause: raised EXACTLY when the clause holds (on entry state).
@@ -63,6 +64,7 @@ class Contract:
                            types=dict(v.get("types", {})), cut=v.get("cut", False),
                            keep=set(v.get("keep", [])), unroll=v.get("unroll", False),
                            body_end=[Clause(c) for c in v.get("body_end", [])],
+                           head=list(v.get("head", [])),
                            at_exit=[Clause(c) for c in v.get("at_exit", [])])
     self.total = g("total", False)          # implicit exceptions are obligations (C18)
     self.total_props = set(g("total_props", ["C18"]))
@@ -77,8 +79,23 @@ class Contract:
     self.ghost_init = dict(g("ghost_init", {}))
     self.callsite_hints = dict(g("callsite_hints", {}))
     self.inline = g("inline", False)
-    self.pure_fn = g("pure_fn", None)       # name of an uninterpreted function the result equals (functional contracts)
+    # ghost code: on_call {callee target: [stmt...]} run after each call of that callee; entry_ghost [stmt...] at entry.
+    # A statement is `name = expr` (ghost assignment) or `assert expr` (call-site obligation) or `assume_hint expr`.
+    self.on_call = {k: list(v) for k, v in g("on_call", {}).items()}
+    self.entry_ghost = list(g("entry_ghost", []))
+    # methods of opaque references (user-supplied objects): (cls, method) -> result type (arbitrary value of it)
+    self.ref_methods = dict(g("ref_methods", {}))
+    self.pure_fn = g("pure_fn", None)
+    # functional contracts: the result as an expression of the parameters (used where no fresh symbol may be
+    # introduced: inside comprehensions over symbolic sequences and quantifier bodies)
+    self.returns_expr = g("returns_expr", None)       # name of an uninterpreted function the result equals (functional contracts)
     self.path_budget = g("path_budget", 4000)
+    self.feasibility = g("feasibility", True)     # False: every symbolic branch is explored without a solver query
+    # definitional axioms naming a spec-level uninterpreted function (conservative extension): assumed at entry of the
+    # function's own verification and at every call site
+    self.defines = [Clause(c) for c in g("defines", [])]
+    ce = g("caller_ensures", None)   # what callers may assume, when it differs from ensures + defines
+    self.caller_ensures = [Clause(c) for c in ce] if ce is not None else None
     self.bounded = g("bounded", None)
 
   def all_props(self):
